@@ -99,8 +99,9 @@ func (g *dataGen) value(t *gast.Type, sets []gast.SelectionSet) *jv {
 func (g *dataGen) object(def *gast.Definition, rt string, sets []gast.SelectionSet, root bool) *jv {
 	o := jobj()
 	// a well-behaved subgraph returns __typename wherever the planner asks for it: always at
-	// abstract positions and at concrete positions whose selection contains a union fragment
-	withTN := !root && (def.Kind != gast.Object || g.draw(2, "tn") == 0 || g.m.levelInfo(sets, def.Name).unionFrags > 0)
+	// abstract positions and at concrete positions whose selection contains a fragment on an
+	// abstract type (such fragments can survive normalization)
+	withTN := !root && (def.Kind != gast.Object || g.draw(2, "tn") == 0 || g.m.levelInfo(sets, def.Name).abstractFrags > 0)
 	tnLast := g.draw(4, "tnlast") == 0
 	if withTN && !tnLast {
 		o.set("__typename", jstr(rt))
